@@ -18,6 +18,9 @@ import CelloProofs.Lemmas.Fail
 import CelloProofs.Lemmas.FailSpec
 import CelloProofs.Lemmas.FailAux
 import CelloProofs.Lemmas.FailOld
+import CelloProofs.Lemmas.FailNest
+import CelloProofs.Lemmas.FailProfile
+import CelloProofs.Lemmas.FailDispatch
 
 namespace Cello.Fail
 
@@ -50,8 +53,9 @@ theorem C12_push_index_raises_exactly (n : Nat) (hn : n + 1 < 2 ^ 63) (k : BitVe
 
 /-! ## Array -/
 
-/-- **C12, Array: failure is atomic.** Outside known finding F15 (and the assign / concat findings), an Array operation that
-    raises returns the array it was given: contents, length and capacity. -/
+/-- **C12, Array: failure is atomic.** Outside known finding F15 (a wrong-typed / NULL element pushed, inserted, or met in the
+    source of `concat`; `concat` from a String; `assign`), an Array operation that raises returns the array it was given: contents,
+    length and capacity — `concat` from NULL or from an object without `Len` included. -/
 theorem C12_failure_atomic_array (a a' : Arr) (op : Op) (e : Exc)
     (hk : a.kf op = false) (h : a.step op = (a', .raised e)) : a' = a := by
   cases op with
@@ -59,6 +63,14 @@ theorem C12_failure_atomic_array (a a' : Arr) (op : Op) (e : Exc)
     cases fmt with
     | nil => simp [Arr.step] at h
     | cons it rest => cases it <;> simp [Arr.step] at h <;> exact h.1.symm
+  | concat src =>
+    cases src with
+    | seq vs =>
+      have hl := (Arr.concatLoop_ok a.ty vs (by simpa [Arr.kf] using hk)).1
+      simp only [Arr.step, Arr.concat] at h
+      rcases hc : Arr.concatLoop a.ty vs with ⟨r, x⟩
+      rw [hc] at h hl; simp only at hl; subst hl; simp at h
+    | scalar v => cases v <;> simp [Arr.step, Arr.concat, Arr.kf] at h hk <;> exact h.1.symm
   | _ =>
     simp only [Arr.step, Arr.kf, Arr.get, Arr.set, Arr.mem, Arr.rem, Arr.push, Arr.pushAt, Arr.pop, Arr.popAt, Arr.resize] at h hk
     all_goals (try (repeat' split at h))
@@ -255,7 +267,19 @@ theorem C12_invariant_array (a : Arr) (op : Op) (ht : typedItems a.ty a.items) (
     · exact ⟨hty, by simp⟩
     · exact ⟨hty, fun x hx => hel x (List.mem_of_mem_take hx)⟩
   | len => exact ⟨hty, hel⟩
-  | concat src => simp [Arr.kf] at hk
+  | concat src =>
+    cases src with
+    | seq vs =>
+      obtain ⟨hl, hr⟩ := Arr.concatLoop_ok a.ty vs (by simpa [Arr.kf] using hk)
+      simp only [Arr.step, Arr.concat]
+      rcases hc : Arr.concatLoop a.ty vs with ⟨r, x⟩
+      rw [hc] at hl hr; simp only at hl hr; subst hl
+      refine ⟨hty, ?_⟩
+      intro y hy
+      rcases List.mem_append.mp hy with h | h
+      · exact hel y h
+      · exact hr y h
+    | scalar v => cases v <;> simp [Arr.kf] at hk <;> exact ⟨hty, hel⟩
   | assign v => simp [Arr.kf] at hk
   | print pos fmt args =>
     cases fmt with
@@ -310,9 +334,9 @@ theorem C12_failure_atomic_list (l l' : Lst) (op : Op) (e : Exc)
     all_goals (try simp_all [R.isOk])
 
 /-- **C12, List: raised ⇔ invalid, with the documented exception** (`List_At` for get/set/pop_at; `List_Push_At` validates the
-    position first — 0 or an existing position, fix 4077d96 — and then the element). -/
-theorem C12_raises_exactly_list (l : Lst) (op : Op) (hw : l.wf) (ho : op.argsOk)
-    (hop : ∀ src, op ≠ .concat src) :
+    position first — 0 or an existing position, fix 4077d96 — and then the element; `concat`: the first source element of the
+    wrong type, NULL source: ValueError). -/
+theorem C12_raises_exactly_list (l : Lst) (op : Op) (hw : l.wf) (ho : op.argsOk) :
     (l.step op).2.exc? = l.spec op := by
   obtain ⟨hty, hel, hlen⟩ := hw
   have hn : l.items.length < 2 ^ 63 := by omega
@@ -391,7 +415,12 @@ theorem C12_raises_exactly_list (l : Lst) (op : Op) (hw : l.wf) (ho : op.argsOk)
     cases hr : resolve l.items.length k <;> simp_all [R.exc?]
   | resize n => simp only [Lst.step, Lst.resize, Lst.spec]; split <;> simp [R.exc?]
   | len => simp [Lst.step, Lst.spec, R.exc?]
-  | concat src => exact absurd rfl (hop src)
+  | concat src =>
+    cases src with
+    | seq vs =>
+      simp only [Lst.step, Lst.concat, Lst.spec]
+      exact Lst.concatLoop_exc l.ty hty vs l rfl (fun v hv => (ho v hv).2)
+    | scalar v => cases v <;> simp [Lst.step, Lst.concat, Lst.spec, R.exc?]
   | assign v =>
     cases v with
     | str s => simp only [Lst.step, Lst.assign, Lst.spec]; split <;> simp [R.exc?]
@@ -1170,7 +1199,278 @@ theorem C12_failure_atomic_view (σ : Store) (o o' : Obj) (op : Op) (e : Exc) (h
     | _ => simp [viewStep] at h <;> simp [← h.1]
   | _ => simp [Obj.isView] at hv
 
+/-! ## containers whose elements are containers (Array / List of Array / List / Table)
+
+  `Array_Set` / `List_Set` / `Array_Push` / … hand the slot to `assign`, which for a container slot is `Array_Assign` /
+  `List_Assign` / `Table_Assign`: known findings assign-clears and foreach-noniter reached through `set` and `push`.  The model has
+  it (`Inner.assign`), the territory is explicit (`Nest.kf`: the source is not a container), the theorems below hold outside it
+  and `C12_nest_set_refuted` / `C12_nest_push_refuted` exhibit it. -/
+
+/-- **C12, nested containers: failure is atomic** outside the territory of the assign / F15 findings — every bad index, wrong-typed
+    or NULL index, empty `pop`, and **every** failing `push` / `push_at` on a List of containers (the node is linked only after its
+    `assign` succeeded) leave the container and all its elements exactly as they were. -/
+theorem C12_failure_atomic_nest (n n' : Nest) (op : NOp) (e : Exc) (hk : n.kf op = false)
+    (h : n.step op = (n', .raised e)) : n' = n := by
+  cases op with
+  | get k => simp only [Nest.step] at h; split at h <;> simp_all
+  | set k src =>
+    simp only [Nest.step, Nest.set] at h
+    cases hr : resolve n.items.length k with
+    | ok i =>
+      rw [hr] at h
+      simp only [Nest.kf, hr, R.isOk, Bool.and_true] at hk
+      cases src with
+      | val v => simp [NSrc.isVal] at hk
+      | cont c =>
+        simp only [Prod.mk.injEq] at h
+        exact absurd h.2 (Inner.assign_cont _ c e)
+    | raised x => rw [hr] at h; simp at h; exact h.1.symm
+    | ub => rw [hr] at h; simp at h
+  | push src =>
+    simp only [Nest.step, Nest.push] at h
+    cases ho : n.outer with
+    | arr =>
+      simp only [ho] at h
+      simp only [Nest.kf, ho, decide_true, Bool.and_true] at hk
+      cases src with
+      | val v => simp [NSrc.isVal] at hk
+      | cont c => simp only [Prod.mk.injEq] at h; exact absurd h.2 (Inner.assign_cont _ c e)
+    | lst =>
+      simp only [ho] at h
+      split at h <;> simp_all
+  | pushAt src k =>
+    simp only [Nest.step, Nest.pushAt] at h
+    cases hc : cInt k with
+    | ok kb =>
+      rw [hc] at h
+      cases ho : n.outer with
+      | arr =>
+        simp only [ho] at h
+        by_cases hb : inBoundsIncl n.items.length (normIdxPush n.items.length kb) = true
+        · simp only [hb, if_true] at h
+          simp only [Nest.kf, ho, Nest.pushIdxOk, hc, hb, decide_true, Bool.and_true] at hk
+          cases src with
+          | val v => simp [NSrc.isVal] at hk
+          | cont c => simp only [Prod.mk.injEq] at h; exact absurd h.2 (Inner.assign_cont _ c e)
+        · simp only [hb, Bool.false_eq_true, if_false] at h; simp at h; exact h.1.symm
+      | lst =>
+        simp only [ho] at h
+        split at h
+        · split at h <;> simp_all
+        · simp at h; exact h.1.symm
+        · simp at h
+    | raised x => rw [hc] at h; simp at h; exact h.1.symm
+    | ub => rw [hc] at h; simp at h
+  | pop => simp only [Nest.step] at h; split at h <;> simp_all
+  | popAt k => simp only [Nest.step] at h; split at h <;> simp_all
+  | resize m => simp only [Nest.step] at h; (repeat' split at h) <;> simp_all
+  | len => simp [Nest.step] at h
+
+
+/-- **C12, nested containers: raised ⇔ invalid**, the known-finding territory included: for every well-formed nested container,
+    every index (any `int64_t`, any type, NULL) and every source (a container, an Int, a Plain, NULL) the exception is the first
+    of: index outside `[-len, len)` (push positions as for Array / List), then the source — NULL: ValueError; not a container:
+    ClassError from the element's `assign`, except that `Array_Assign` reaches `foreach` first and ends in undefined behaviour. -/
+theorem C12_raises_exactly_nest (n : Nest) (hw : n.wf) (op : NOp) (ho : op.argsOk) :
+    (n.step op).2.exc? = n.spec op := by
+  have hlen : n.items.length < 2 ^ 63 := by have := hw.2; omega
+  cases op with
+  | get k =>
+    obtain ⟨h1, _⟩ := resolve_exc n.items.length hlen k ho.1
+    simp only [Nest.step, Nest.spec, ← h1]
+    cases resolve n.items.length k <;> simp [R.exc?]
+  | set k src =>
+    obtain ⟨h1, h2⟩ := resolve_exc n.items.length hlen k ho.1.1
+    simp only [Nest.step, Nest.set, Nest.spec, ← h1]
+    cases hr : resolve n.items.length k with
+    | ok i =>
+      have := Inner.assign_exc (n.items.getD i (Inner.zero n.ek)) src ho.2
+      rw [getD_kind n hw.1 i] at this
+      simp [R.exc?, Option.or, ← this]
+    | raised x => simp [R.exc?, Option.or]
+    | ub => exact absurd hr h2
+  | push src =>
+    have := Inner.assign_exc (Inner.zero n.ek) src ho
+    rw [Inner.zero_kind] at this
+    simp only [Nest.step, Nest.push, Nest.spec, ← this]
+    cases n.outer with
+    | arr => rfl
+    | lst =>
+      simp only
+      cases (Inner.zero n.ek).assign src with
+      | mk e' r => cases r <;> rfl
+  | pushAt src k =>
+    have ha := Inner.assign_exc (Inner.zero n.ek) src ho.1
+    rw [Inner.zero_kind] at ha
+    simp only [Nest.step, Nest.pushAt, Nest.spec, ← ha]
+    cases hout : n.outer with
+    | arr =>
+      have hp := pushIdx_exc n.items.length hw.2 k ho.2.1
+      simp only [← hp]
+      cases hc : cInt k with
+      | ok kb =>
+        simp only
+        by_cases hb : inBoundsIncl n.items.length (normIdxPush n.items.length kb) = true
+        · simp [hb, Option.or]
+        · simp [hb, R.exc?, Option.or]
+      | raised x => simp [R.exc?, Option.or]
+      | ub => cases k <;> simp [cInt] at hc
+    | lst =>
+      have hp := lstPushIdx_exc n.items.length hlen k ho.2.1
+      simp only [← hp]
+      cases hc : cInt k with
+      | ok kb =>
+        simp only
+        by_cases h0 : kb = 0
+        · simp only [h0, if_true, Option.or]
+          cases (Inner.zero n.ek).assign src with
+          | mk e' r => cases r <;> rfl
+        · simp only [h0, if_false]
+          cases hr : resolveB n.items.length kb with
+          | ok i =>
+            simp only [R.exc?, Option.or]
+            cases (Inner.zero n.ek).assign src with
+            | mk e' r => cases r <;> rfl
+          | raised x => simp [R.exc?, Option.or]
+          | ub => rw [resolveB_eq n.items.length hlen kb] at hr; split at hr <;> cases hr
+      | raised x => simp [R.exc?, Option.or]
+      | ub => cases k <;> simp [cInt] at hc
+  | pop => simp only [Nest.step, Nest.spec]; split <;> simp [R.exc?]
+  | popAt k =>
+    obtain ⟨h1, _⟩ := resolve_exc n.items.length hlen k ho.1
+    simp only [Nest.step, Nest.spec, ← h1]
+    cases resolve n.items.length k <;> simp [R.exc?]
+  | resize m =>
+    simp only [Nest.step, Nest.spec]
+    cases n.outer <;> simp only <;> (repeat' split) <;> simp [R.exc?]
+  | len => simp [Nest.step, Nest.spec, R.exc?]
+
+
+/-- the typing invariant of nested containers — every element is of the declared element type — is preserved by every operation,
+    failed ones and the known-finding territory included (`assign` never changes what kind of container a slot is) -/
+theorem C12_invariant_nest (n : Nest) (hw : ∀ e ∈ n.items, e.kind = n.ek) (op : NOp) :
+    ∀ e ∈ (n.step op).1.items, e.kind = (n.step op).1.ek := by
+  have hz : ∀ src, ((Inner.zero n.ek).assign src).1.kind = n.ek := fun src => by rw [Inner.assign_kind, Inner.zero_kind]
+  cases op with
+  | get k => simp only [Nest.step]; split <;> exact hw
+  | set k src =>
+    simp only [Nest.step, Nest.set]
+    split
+    · rename_i i _
+      exact Inner.mem_set_kind n hw i _ (by rw [Inner.assign_kind, getD_kind n hw i])
+    · exact hw
+    · exact hw
+  | push src =>
+    simp only [Nest.step, Nest.push]
+    cases n.outer with
+    | arr =>
+      intro e he
+      rcases List.mem_append.mp he with h | h
+      · exact hw e h
+      · simp at h; subst h; exact hz src
+    | lst =>
+      simp only
+      split
+      · intro e he
+        rcases List.mem_append.mp he with h | h
+        · exact hw e h
+        · simp at h; subst h; exact hz src
+      · exact hw
+  | pushAt src k =>
+    simp only [Nest.step, Nest.pushAt]
+    split
+    · cases n.outer with
+      | arr =>
+        simp only
+        split
+        · intro e he
+          rcases mem_insertAt _ _ _ _ he with h | h
+          · subst h; exact hz src
+          · exact hw e h
+        · exact hw
+      | lst =>
+        simp only
+        split
+        · split
+          · intro e he
+            rcases mem_insertAt _ _ _ _ he with h | h
+            · subst h; exact hz src
+            · exact hw e h
+          · exact hw
+        · exact hw
+        · exact hw
+    · exact hw
+    · exact hw
+  | pop =>
+    simp only [Nest.step]; split
+    · exact hw
+    · intro e he; exact hw e (mem_of_mem_dropLast' _ _ he)
+  | popAt k =>
+    simp only [Nest.step]; split
+    · intro e he; exact hw e (mem_removeAt _ _ _ he)
+    · exact hw
+    · exact hw
+  | resize m =>
+    simp only [Nest.step]
+    cases n.outer <;> simp only <;> (repeat' split) <;> first | exact hw | (intro e he; first | exact hw e (List.mem_of_mem_take he) | simp at he)
+  | len => exact hw
+
+example : Nest.wf { outer := .arr, ek := .lst, items := [.lst { ty := .int, items := [.int 1, .int 2] }], nslots := 1 } := by
+  refine ⟨?_, by decide⟩; intro e he; simp at he; subst he; rfl
+example : (Nest.step { outer := .lst, ek := .lst, items := [.lst { ty := .int, items := [.int 1] }], nslots := 0 } (.push (.val (.int 5)))) =
+    ({ outer := .lst, ek := .lst, items := [.lst { ty := .int, items := [.int 1] }], nslots := 0 }, .raised .ClassError) := by decide
+example : (Nest.step { outer := .arr, ek := .arr, items := [.arr { ty := .int, items := [.int 1], nslots := 1 }], nslots := 1 } (.set (.int 3) (.val (.int 5)))).2 =
+    .raised .IndexOutOfBoundsError := by decide
+
+/-- **Known findings assign-clears / foreach-noniter, reached through `set` (refuted).** `set(Array of List, 0, Int)` raises ClassError
+    and leaves the element emptied and re-typed; with NULL: ValueError, the element emptied; `set(Array of Array, 0, Int)` ends in
+    undefined behaviour (`foreach` over an Int) with the element emptied. -/
+theorem C12_nest_set_refuted :
+    Nest.step { outer := .arr, ek := .lst, items := [.lst { ty := .int, items := [.int 1, .int 2] }], nslots := 1 } (.set (.int 0) (.val (.int 5))) =
+      ({ outer := .arr, ek := .lst, items := [.lst { ty := .ref, items := [] }], nslots := 1 }, .raised .ClassError) ∧
+    Nest.step { outer := .lst, ek := .tab, items := [.tab { kty := .int, vty := .int, items := [(.int 1, .int 1)], nslots := 5 }], nslots := 0 } (.set (.int 0) (.val .null)) =
+      ({ outer := .lst, ek := .tab, items := [.tab { kty := .int, vty := .int, items := [], nslots := 0 }], nslots := 0 }, .raised .ValueError) ∧
+    Nest.step { outer := .arr, ek := .arr, items := [.arr { ty := .int, items := [.int 1, .int 2], nslots := 2 }], nslots := 1 } (.set (.int 0) (.val (.int 5))) =
+      ({ outer := .arr, ek := .arr, items := [.arr { ty := .ref, items := [], nslots := 0 }], nslots := 1 }, .ub) := by decide
+
+/-- **Known finding F15 on an Array of containers (refuted).** `push(Array of List, Int)` raises ClassError and leaves the array one
+    (empty, re-typed) element longer. -/
+theorem C12_nest_push_refuted :
+    Nest.step { outer := .arr, ek := .lst, items := [.lst { ty := .int, items := [.int 1] }], nslots := 1 } (.push (.val (.int 5))) =
+      ({ outer := .arr, ek := .lst, items := [.lst { ty := .int, items := [.int 1] }, .lst { ty := .ref, items := [] }], nslots := 3 }, .raised .ClassError) := by
+  decide
+
 /-! ## every object of a store -/
+
+/-- the operations of the generic interface on a nested container (scalar or NULL sources): a failure outside the known findings
+    returns the very same object; a pointer with a bad magic number is refused by `Type_Of` before anything is touched -/
+theorem C12_failure_atomic_nest_object (n : Nest) (o' : Obj) (op : Op) (e : Exc) (hk : (Obj.nest n).kf op = false)
+    (h : (Obj.nest n).stepLocal op = (o', .raised e)) : o' = .nest n := by
+  have key : ∀ (nop : NOp), n.kf nop = false → (match n.step nop with | (n', r) => (Obj.nest n', r)) = (o', .raised e) → o' = .nest n := by
+    intro nop hk2 h2
+    rcases hs : n.step nop with ⟨n', r⟩
+    rw [hs] at h2; simp only [Prod.mk.injEq] at h2; obtain ⟨h1, h3⟩ := h2; subst h1; subst h3
+    rw [C12_failure_atomic_nest n n' nop e hk2 hs]
+  cases op with
+  | get k => exact key (.get k) rfl h
+  | set k v => exact key (.set k (.val v)) hk h
+  | push v => exact key (.push (.val v)) hk h
+  | append v => exact key (.push (.val v)) hk h
+  | pushAt v k => exact key (.pushAt (.val v) k) hk h
+  | pop => exact key .pop rfl h
+  | popAt k => exact key (.popAt k) rfl h
+  | resize m => exact key (.resize m) rfl h
+  | len => exact key .len rfl h
+  | print pos fmt args =>
+    cases fmt with
+    | nil => simp [Obj.stepLocal] at h
+    | cons it rest => cases it <;> simp [Obj.stepLocal] at h <;> exact h.1.symm
+  | _ => simp [Obj.stepLocal] at h
+
+theorem C12_failure_atomic_junk_object (m : Cello.Dispatch.Magic) (o' : Obj) (op : Op) (r : Res)
+    (h : (Obj.junk m).stepLocal op = (o', r)) : o' = .junk m := by
+  simp only [Obj.stepLocal] at h
+  split at h <;> (simp only [Prod.mk.injEq] at h; exact h.1.symm)
 
 theorem C12_failure_atomic_object (o o' : Obj) (op : Op) (e : Exc) (hk : o.kf op = false)
     (h : o.stepLocal op = (o', .raised e)) : o'.view = o.view := by
@@ -1224,6 +1524,8 @@ theorem C12_failure_atomic_object (o o' : Obj) (op : Op) (e : Exc) (hk : o.kf op
     | _ => simp [Obj.stepLocal] at h <;> simp [← h.1]
   | slc s => simp [Obj.stepLocal] at h
   | zip z => simp [Obj.stepLocal] at h
+  | nest n => rw [C12_failure_atomic_nest_object n o' op e hk h]
+  | junk m => rw [C12_failure_atomic_junk_object m o' op _ h]
 
 /-- **C12 (failure is atomic, whole store).** For every store of objects (arrays, lists, heap and stack tuples, tables, trees,
     heap/stack/static strings, ranges, slices, zips, plain values), every object and every operation outside the territories
@@ -1301,6 +1603,8 @@ theorem C12_failure_atomic_object_exact (o o' : Obj) (op : Op) (e : Exc) (hk : o
     | _ => simp [Obj.stepLocal] at h <;> exact h.1.symm
   | slc s => simp [Obj.stepLocal] at h
   | zip z => simp [Obj.stepLocal] at h
+  | nest n => rw [C12_failure_atomic_nest_object n o' op e hk h]
+  | junk m => rw [C12_failure_atomic_junk_object m o' op _ h]
 
 /-- **C12 (failure is atomic, exactly).** If the object operated on is not a slot-less Table and not a Slice, a failed operation
     outside the known findings returns the very same store: nothing at all has changed, capacities and scratch values included. -/
@@ -1366,35 +1670,206 @@ theorem C12_then_usable_table (t t' : Tab) (op : Op) (e : Exc) (hw : t.wf)
       | _ => simp [Tab.step]
   · rw [hne hz]; exact ⟨rfl, rfl, rfl, rfl⟩
 
-/-! ## calls that do not reach a class method -/
+/-- **C12 (failure is atomic, nested containers, whole store).** An operation on a container of containers — the source of `set` /
+    `push` may be a container object — that raises outside the territory of the assign / F15 findings returns the very same store. -/
+theorem C12_failure_atomic_nested (σ σ' : Store) (id : Nat) (op : NOp) (e : Exc)
+    (hk : kfN σ id op = false) (h : stepN σ id op = (σ', .raised e)) : σ' = σ := by
+  unfold stepN at h
+  unfold kfN at hk
+  cases hg : σ.get? id with
+  | none => simp [hg] at h
+  | some o =>
+    cases o with
+    | nest n =>
+      simp only [hg] at h hk
+      rcases hs : n.step op with ⟨n', r⟩
+      rw [hs] at h; simp only [Prod.mk.injEq] at h; obtain ⟨h1, h2⟩ := h; subst h1; subst h2
+      rw [C12_failure_atomic_nest n n' op e hk hs]
+      exact Store.put_same σ id _ hg
+    | _ => simp [hg] at h
 
-/-- a method call on NULL raises ValueError (`Type_Of(NULL)`) — there is no object to change -/
-theorem C12_null_call : nullCall = .raised .ValueError := rfl
+/-! ## the C sources: the order of checks and mutations (link A, `translate/g_fail.py`)
+
+  `CelloGen.Fail.profile` is regenerated from /repo on every run.  The failure-atomicity theorems above hold "by the shape of the
+  model" — every raising branch of the model returns its argument — so their content is that the model has the order of the C
+  statements.  The theorems of this section tie that order to the source text: a changed guard, a moved mutation, a dropped
+  `throw` or a new branch in any mirrored function makes one of them fail to check. -/
+
+/-- **the mirrored functions are the ones the model was written against**: for each of the 64 functions, the sequence of guards
+    (`if` conditions), throw sites, validating calls, element assignments and mutations, with its block structure -/
+theorem C12_source_profile : CelloGen.Fail.profile = modelledProfile := by decide
+
+/-- **in the C source, checks precede mutations** in every function listed in `orderedFns`: on no path through the function (loops,
+    branches, calls of other profiled functions followed) is a `throw`, a validating call (`c_int`, `cast`, `c_str`, `eq`, `len`,
+    `get`, `instance`, …) or an element `assign` reached after the object has been written to.  Evaluated on the generated
+    profile: moving `nitems++`, a `memmove`, a `realloc` or a `destruct` in front of a check breaks this obligation. -/
+theorem C12_source_checks_precede_mutations :
+    ∀ f ∈ orderedFns, Profile.ordered CelloGen.Fail.profile f = true := by decide
+
+/-- **…and in the functions of `unorderedFns` they do not** — the known findings (F15 `Array_Push` / `Array_Push_At` / `Array_Concat`,
+    `List_Concat`, the four `*_Assign`, `Tuple_Concat` / `Tuple_Assign`) and the benign cases named there (`Table_Set`,
+    `Table_Set_Move`, `Tree_Set`, `Slice_Get`, `Zip_Get`).  A repair of one of them in /repo breaks this obligation, so that the model
+    (and the `…_refuted` theorem of the finding) cannot silently go stale. -/
+theorem C12_source_order_violations :
+    ∀ f ∈ unorderedFns, Profile.ordered CelloGen.Fail.profile f = false := by decide
+
+/-- every mirrored function is in one of the two lists -/
+theorem C12_source_functions_classified :
+    ∀ p ∈ CelloGen.Fail.profile, (p.1 ∈ orderedFns ∨ p.1 ∈ unorderedFns) ∧ ¬ (p.1 ∈ orderedFns ∧ p.1 ∈ unorderedFns) := by decide
+
+/-- **model and source agree on where failure is atomic.** For every object of the model, every operation and the C function `f`
+    it mirrors (`Obj.opFn`): if, in the *generated* profile, the checks of `f` precede its mutations, then in the model the
+    operation is failure-atomic for all states and arguments — with no known-finding hypothesis.  (The territories `X.kf` of
+    FailSpec.lean lie inside the operations whose C function is unordered: `Array_Push`, `Array_Push_At`, `Array_Concat`,
+    `List_Concat`, the `*_Assign`s — and, on containers of containers, `set` / `push`, which run the element's `*_Assign`.) -/
+theorem C12_atomic_where_source_ordered (o o' : Obj) (op : Op) (e : Exc) (f : String)
+    (hf : o.opFn op = some f) (ho : Profile.ordered CelloGen.Fail.profile f = true)
+    (h : o.stepLocal op = (o', .raised e)) : o'.view = o.view := by
+  have un := C12_source_order_violations
+  have no : ∀ g, g ∈ unorderedFns → f = g → False := fun g hg he => by
+    have := un g hg; rw [← he, ho] at this; cases this
+  apply C12_failure_atomic_object o o' op e _ h
+  cases o with
+  | arr a =>
+    cases op <;> simp only [Obj.opFn, Option.some.injEq, reduceCtorEq] at hf <;> (try rfl) <;>
+      exact (no _ (by simp [unorderedFns]) hf.symm).elim
+  | lst l =>
+    cases op <;> simp only [Obj.opFn, Option.some.injEq, reduceCtorEq] at hf <;> (try rfl) <;>
+      first
+      | exact (no _ (by simp [unorderedFns]) hf.symm).elim
+      | (rename_i src; cases src <;> first | rfl | exact (no _ (by simp [unorderedFns]) hf.symm).elim)
+  | tab t =>
+    cases op <;> simp only [Obj.opFn, Option.some.injEq, reduceCtorEq] at hf <;> (try rfl) <;>
+      exact (no _ (by simp [unorderedFns]) hf.symm).elim
+  | tre t =>
+    cases op <;> simp only [Obj.opFn, Option.some.injEq, reduceCtorEq] at hf <;> (try rfl) <;>
+      exact (no _ (by simp [unorderedFns]) hf.symm).elim
+  | str s =>
+    cases op <;> simp only [Obj.opFn, Option.some.injEq, reduceCtorEq] at hf <;> rfl
+  | nest n =>
+    cases op <;> simp only [Obj.opFn, Option.some.injEq, reduceCtorEq] at hf <;> (try rfl) <;>
+      (cases hk : n.ek <;> simp only [hk, IK.assignFn] at hf <;> exact (no _ (by simp [unorderedFns]) hf.symm).elim)
+  | _ => rfl
+
+-- the hypotheses are met: `get`, `set`, `pop_at`, `rem` of an Array mirror ordered functions; `push` does not
+example : Profile.ordered CelloGen.Fail.profile "Array_Pop_At" = true ∧ Profile.ordered CelloGen.Fail.profile "Array_Push" = false ∧
+    Profile.ordered CelloGen.Fail.profile "String_Rem" = true ∧ Profile.ordered CelloGen.Fail.profile "Range_Get" = true := by decide
+example : (Obj.arr { ty := .int, items := [], nslots := 0 }).opFn (.popAt (.int 0)) = some "Array_Pop_At" := rfl
+
+/-! ## the dispatcher: NULL, magic number, unimplemented class or member -/
+
+/-- **C12, call on NULL.** `Type_Of(NULL)` — engine C08's model of src/Type.c, `Cello.Dispatch.typeOfW`, whatever the world of types —
+    raises ValueError and leaves the world as it is; the model's `nullCall` (the answer of every method, `assign`, `cast`,
+    `dealloc` on NULL) is that outcome.  There is no object to change. -/
+theorem C12_null_call :
+    (∀ w : Cello.Dispatch.World, Cello.Dispatch.typeOfW w .null = (w, .raised .ValueError)) ∧ nullCall = .raised .ValueError :=
+  ⟨fun _ => rfl, rfl⟩
+
+/-- **C12, magic-number check.** A pointer whose header carries the freed-object magic number (`dead`) or anything that is not
+    Cello's (`bad`): `Type_Of` raises ValueError and changes nothing — in C08's model of src/Type.c for every world and header type
+    word — and therefore every class method, `assign`, `print_to`, `type_of`, `cast`, `dealloc` of the model raises ValueError on
+    such an object and returns the object, and the whole store, as they were. -/
+theorem C12_bad_magic_call (m : Cello.Dispatch.Magic) (hm : m ≠ .good) :
+    (∀ (w : Cello.Dispatch.World) (tid : Nat), Cello.Dispatch.typeOfW w (.obj m tid) = (w, .raised .ValueError)) ∧
+    (∀ op : Op, (Obj.junk m).stepLocal op = (Obj.junk m, .raised .ValueError)) ∧
+    (∀ r : Res, headerCall (Obj.junk m) r = .raised .ValueError) ∧
+    (∀ (σ : Store) (id : Nat) (op : Op), σ.get? id = some (Obj.junk m) → step σ id op = (σ, .raised .ValueError)) := by
+  cases m with
+  | good => exact absurd rfl hm
+  | dead =>
+    refine ⟨fun _ _ => rfl, fun _ => rfl, fun _ => rfl, ?_⟩
+    intro σ id op hg
+    have : step σ id op = (σ.put id (Obj.junk .dead), .raised .ValueError) := by simp [step, hg, Obj.isView, Obj.stepLocal, headerExc, Cello.Dispatch.typeOfW]
+    rw [this, Store.put_same σ id _ hg]
+  | bad =>
+    refine ⟨fun _ _ => rfl, fun _ => rfl, fun _ => rfl, ?_⟩
+    intro σ id op hg
+    have : step σ id op = (σ.put id (Obj.junk .bad), .raised .ValueError) := by simp [step, hg, Obj.isView, Obj.stepLocal, headerExc, Cello.Dispatch.typeOfW]
+    rw [this, Store.put_same σ id _ hg]
+
+/-- an object with a good magic number passes `Type_Of`: `type_of` / `cast` / `dealloc` continue with their own checks -/
+theorem C12_good_magic_call (o : Obj) (hj : ∀ m, o ≠ .junk m) (r : Res) : headerCall o r = r := by
+  cases o <;> first | rfl | exact absurd rfl (hj _)
 
 /-- `cast` to another type raises ValueError, to the object's own type succeeds; the object is not touched (pure) -/
-theorem C12_cast_raises_exactly (o : Obj) (name : String) :
-    (castObj o name).exc? = if o.typeName = name then none else some .ValueError := by
+theorem C12_cast_raises_exactly (o : Obj) (hj : ∀ m, o ≠ .junk m) (name : String) :
+    (headerCall o (castObj o name)).exc? = if o.typeName = name then none else some .ValueError := by
+  rw [C12_good_magic_call o hj]
   unfold castObj; split <;> simp [R.exc?]
 
 /-- `dealloc` of an object that is not on the heap — static, on the stack, or inside a container — raises ResourceError -/
 theorem C12_dealloc_raises_exactly (a : AllocK) (h : a ≠ .heap) : deallocObj a = .raised .ResourceError := by
   cases a <;> simp_all [deallocObj]
 
-/-- an operation whose class (or member) the type does not implement raises ClassError and leaves the object alone:
-    Push/Concat on Table and Tree, get/set/Push on String, set/rem/Push/Resize/Concat on Range, everything on a plain Int. -/
-theorem C12_unimplemented_class_error :
-    (∀ (t : Tab) (v k : Val), t.step (.push v) = (t, .raised .ClassError) ∧ t.step .pop = (t, .raised .ClassError) ∧
-        t.step (.pushAt v k) = (t, .raised .ClassError) ∧ t.step (.popAt k) = (t, .raised .ClassError) ∧
-        t.step (.append v) = (t, .raised .ClassError)) ∧
-    (∀ (t : Tre) (v k : Val), t.step (.push v) = (t, .raised .ClassError) ∧ t.step .pop = (t, .raised .ClassError) ∧
-        t.step (.pushAt v k) = (t, .raised .ClassError) ∧ t.step (.popAt k) = (t, .raised .ClassError) ∧
-        t.step (.append v) = (t, .raised .ClassError)) ∧
-    (∀ (s : Str) (v k : Val), s.step (.get k) = (s, .raised .ClassError) ∧ s.step (.set k v) = (s, .raised .ClassError) ∧
-        s.step (.push v) = (s, .raised .ClassError) ∧ s.step .pop = (s, .raised .ClassError)) ∧
-    (∀ (r : Rng) (v k : Val) (n : Nat), r.step' (.set k v) = (r, .raised .ClassError) ∧ r.step' (.rem v) = (r, .raised .ClassError) ∧
-        r.step' (.push v) = (r, .raised .ClassError) ∧ r.step' (.resize n) = (r, .raised .ClassError)) ∧
-    (∀ (a : AllocK) (i : Int) (k : Val), (Obj.scalar a (.int i)).stepLocal (.get k) = (.scalar a (.int i), .raised .ClassError) ∧
-        (Obj.scalar a (.int i)).stepLocal .len = (.scalar a (.int i), .raised .ClassError)) := by
-  refine ⟨?_, ?_, ?_, ?_, ?_⟩ <;> intros <;> simp [Tab.step, Tre.step, Str.step, Rng.step', Obj.stepLocal]
+/-- **C12, unimplemented class or member ⇒ ClassError, from the declarations of the sources.** `declares` reads the matrix
+    `CelloGen.Disp.declared`, regenerated on every run from the `Cello(T, Instance(Class, members…))` texts.  For every object of
+    the model (any state; views over any store), every operation and the class member `m` it is dispatched through: if the
+    object's type does not declare `m` (class missing or member NULL), the operation raises ClassError and returns the object as it
+    was.  Push/Concat on Table and Tree; get/set/Push on String; set/rem/Push/Resize/Concat on Range, Slice, Zip; everything on a
+    plain Int or a type without instances; `print_to` into anything but a String. -/
+theorem C12_unimplemented_class_error (σ : Store) (o : Obj) (op : Op) (m : String × Nat)
+    (hm : op.member = some m) (hd : declares o.typeName m.1 m.2 = false) (hj : ∀ x, o ≠ .junk x)
+    (hs : ∀ a v, o = .scalar a v → (∃ i, v = .int i) ∨ (∃ i, v = .plain i)) :
+    (if o.isView then viewStep σ o op else o.stepLocal op) = (o, .raised .ClassError) := by
+  have mem := Op.member_mem op m hm
+  have hl : ∀ ty, o.typeName = ty → ty ∈ modelledTypes → (lacks ty).contains m = true :=
+    fun ty h1 h2 => lacks_of_undeclared ty h2 m mem (h1 ▸ hd)
+  cases o with
+  | junk x => exact absurd rfl (hj x)
+  | scalar a v =>
+    rcases hs a v rfl with ⟨i, hi⟩ | ⟨i, hi⟩ <;> subst hi
+    · simpa [Obj.isView] using uce_int a i op m hm (hl "Int" rfl (by simp [modelledTypes]))
+    · simpa [Obj.isView] using uce_plain a i op m hm (hl "Plain" rfl (by simp [modelledTypes]))
+  | arr a =>
+    have h := uce_arr a op m hm (hl "Array" rfl (by simp [modelledTypes]))
+    simp [Obj.isView, Obj.stepLocal, h]
+  | lst l =>
+    have h := uce_lst l op m hm (hl "List" rfl (by simp [modelledTypes]))
+    simp [Obj.isView, Obj.stepLocal, h]
+  | tup t =>
+    have h := uce_tup t op m hm (hl "Tuple" rfl (by simp [modelledTypes]))
+    simp [Obj.isView, Obj.stepLocal, h]
+  | tab t =>
+    have h := uce_tab t op m hm (hl "Table" rfl (by simp [modelledTypes]))
+    simp [Obj.isView, Obj.stepLocal, h]
+  | tre t =>
+    have h := uce_tre t op m hm (hl "Tree" rfl (by simp [modelledTypes]))
+    simp [Obj.isView, Obj.stepLocal, h]
+  | str x =>
+    have h := uce_str x op m hm (hl "String" rfl (by simp [modelledTypes]))
+    simp [Obj.isView, Obj.stepLocal, h]
+  | rng r =>
+    have h := uce_rng r op m hm (hl "Range" rfl (by simp [modelledTypes]))
+    simp [Obj.isView, Obj.stepLocal, h]
+  | slc c => simpa [Obj.isView] using uce_slc σ c op m hm (hl "Slice" rfl (by simp [modelledTypes]))
+  | zip z => simpa [Obj.isView] using uce_zip σ z op m hm (hl "Zip" rfl (by simp [modelledTypes]))
+  | nest n =>
+    cases ho : n.outer with
+    | arr => simpa [Obj.isView] using uce_narr n ho op m hm (hl "Array" (by simp [Obj.typeName, ho]) (by simp [modelledTypes]))
+    | lst => simpa [Obj.isView] using uce_nlst n ho op m hm (hl "List" (by simp [Obj.typeName, ho]) (by simp [modelledTypes]))
+
+-- the hypothesis is met: a Table declares no `Push`, a String a `Get` without `get`, a Range no `Resize`
+example : declares "Table" "Push" 0 = false ∧ declares "String" "Get" 0 = false ∧ declares "String" "Get" 2 = true ∧
+    declares "Range" "Resize" 0 = false ∧ declares "Array" "Get" 1 = true ∧ declares "Int" "Len" 0 = false := by decide
+
+/-- sample objects of every kind, and every dispatched operation with NULL arguments (NULL never causes a ClassError by itself) -/
+def sampleObjs : List Obj :=
+  [.arr { ty := .int, items := [.int 1], nslots := 1 }, .lst { ty := .int, items := [.int 1] }, .tup { alloc := .heap, items := [.int 1] },
+   .tab { kty := .int, vty := .int, items := [(.int 1, .int 2)], nslots := 5 }, .tre { kty := .int, vty := .int, items := [(.int 1, .int 2)] },
+   .str { alloc := .heap, s := ['a'] }, .rng { start := 0, stop := 3, step := 1, scratch := 0 },
+   .scalar .heap (.int 3), .scalar .heap (.plain 1),
+   .nest { outer := .arr, ek := .lst, items := [], nslots := 0 }, .nest { outer := .lst, ek := .arr, items := [], nslots := 0 }]
+
+def sampleOps : List Op :=
+  [.get .null, .set .null .null, .mem .null, .rem .null, .push .null, .pop, .pushAt .null .null, .popAt .null, .resize 0, .len,
+   .concat (.scalar .null), .append .null, .print 0 [.lit ['x']] []]
+
+/-- …and conversely on one object of every kind: with NULL arguments (which raise ValueError where they are looked at, never
+    ClassError) an operation of the model answers ClassError **exactly** when the sources do not declare the member — the model has
+    no ClassError-by-dispatch branch that the declarations do not justify. -/
+theorem C12_class_error_iff_undeclared :
+    ∀ o ∈ sampleObjs, ∀ op ∈ sampleOps,
+      (decide ((o.stepLocal op).2 = .raised .ClassError)) =
+        (match op.member with | some m => !declares o.typeName m.1 m.2 | none => false) := by decide
 
 end Cello.Fail
